@@ -490,7 +490,7 @@ pub fn run(ctx: &Ctx) -> Report {
     }
   }
   rep.count("phase:exhaustive-small-scope-done");
-  let n = ctx.n(1_500, 60_000);
+  let n = ctx.n(1_500, 25_000);
   for _ in 0..n {
     let q = ALL_Q[rng.below(3) as usize];
     let w = ALL_W[rng.below(3) as usize];
